@@ -23,20 +23,20 @@ type catRec struct {
 
 // rangeObs: what the real code says about one requirement.
 type rangeObs struct {
-	Kind   string `json:"kind"` // "req"
-	ID     int    `json:"id"`
-	Text   string `json:"text"`
-	Ok     bool   `json:"ok"`   // ParseConstraint accepted
-	Err    string `json:"err"`
-	M      []int  `json:"m"`    // candidates with MatchVersion true (1-based indices into the universe)
-	MStr   []int  `json:"mstr"` // same through Match(string)
-	P      []int  `json:"p"`    // MatchVersionPrerelease
-	Set    string `json:"set"`  // c.Set().String()
-	Empty  bool   `json:"empty"`
-	RtOk   bool   `json:"rtok"` // ParseSetConstraint(Set) accepted
-	Set2   string `json:"set2"`
-	P2     []int  `json:"p2"` // MatchVersionPrerelease of the re-parsed set
-	M2     []int  `json:"m2"`
+	Kind  string `json:"kind"` // "req"
+	ID    int    `json:"id"`
+	Text  string `json:"text"`
+	Ok    bool   `json:"ok"` // ParseConstraint accepted
+	Err   string `json:"err"`
+	M     []int  `json:"m"`    // candidates with MatchVersion true (1-based indices into the universe)
+	MStr  []int  `json:"mstr"` // same through Match(string)
+	P     []int  `json:"p"`    // MatchVersionPrerelease
+	Set   string `json:"set"`  // c.Set().String()
+	Empty bool   `json:"empty"`
+	RtOk  bool   `json:"rtok"` // ParseSetConstraint(Set) accepted
+	Set2  string `json:"set2"`
+	P2    []int  `json:"p2"` // MatchVersionPrerelease of the re-parsed set
+	M2    []int  `json:"m2"`
 }
 
 // pairObs: union / intersection of an ordered pair of requirement sets.
